@@ -9,7 +9,7 @@ Engine E1 (stateless exploration of the real implementation under schedulers we 
   runtime (virtual loop) and the thread-pool runtime (controlled pool) EVERY completion order of the
   pending resolver results is explored, plus early / batched completions up to a deviation bound;
 * bytecode-granular: the future combinators of runtime/threadpool.py (gather_futures, chain,
-  unwrap_future) are completed by 2-3 real threads under the settrace baton scheduler, every
+  unwrap_future) are completed by 2-3 real threads under the sys.monitoring baton scheduler, every
   interleaving at CPython's thread-switch granularity up to a preemption bound; executor-level
   two-worker runs at a small preemption bound.
 
@@ -24,7 +24,7 @@ from mc.explore import HarnessError, explore, run_once
 
 READY = True
 LEVEL = "model_checking"
-TECHNIQUE = "stateless exhaustive exploration of completion orders (virtual asyncio loop, controlled pool) and of thread interleavings (settrace baton scheduler) of the real executor, differential oracle against the blocking executor"
+TECHNIQUE = "stateless exhaustive exploration of completion orders (virtual asyncio loop, controlled pool) and of thread interleavings (sys.monitoring baton scheduler) of the real executor, differential oracle against the blocking executor"
 LEVEL_TEXT = (
     "Every completion order of in-flight resolver results (plus early/batched completions up to the stated "
     "deviation bound) is executed on the real Executor/AsyncIORuntime/ThreadPoolRuntime for each bounded scenario, "
